@@ -98,7 +98,7 @@ def run(rep):
              'the stored value IS the given one; subscribed() is a membership '
              'test; (equality for subscriber removal: R07.2)', floor=3)
     rep.rule('R09.2', 'key construction agreement of register/_find_leaf/'
-             'unregister/subscribe/unsubscribe and name normalisation', floor=9)
+             'unregister/subscribe/unsubscribe and name normalisation', floor=7)
     rep.rule('R09.3', 'pruning: containers are deleted only when empty, leaf '
              'to root, stopping at the first non-empty one', floor=4)
     rep.rule('R09.4', 'rebuild: both iterators are started (buffered) before '
@@ -106,7 +106,7 @@ def run(rep):
              're-registered and every subscription re-subscribed', floor=3)
     rep.rule('R09.5', 'depth agreement between the writers (order + 1 nested '
              'mappings, then the name) and the enumerators (_allKeys depth, '
-             'key slices)', floor=5)
+             'key slices)', floor=4)
     rep.rule('R09.6', 'leaf writes: register stores components[name] = value '
              'and counts once; unregister deletes exactly that entry; '
              'registered()/subscribed() read through _find_leaf', floor=6)
@@ -146,36 +146,48 @@ def run(rep):
               '(required: identity, `is`): %s'
               % ([c[1] for c in cands], [norm_src(c[0].test) for c in cands]),
               construct='same-value', node=reg)
-    ifs = [n for n in walk_local(unreg) if isinstance(n, ast.If)
-           and any(isinstance(s, ast.Return) for s in n.body)
-           and 'value' in names_in(n.test)]
-    ok = len(ifs) == 1 and (
-        match('value is not None and old is not value', ifs[0].test) is not None)
-    if ok:
-        old = resolve_local(unreg, ast.Name(id='old', ctx=ast.Load()))
-        ok = match('components.get(name)', old) is not None
-    rep.check('R09.1', 'BaseAdapterRegistry.unregister', ok,
-              'value filter: `%s` (required identity: value is not None and '
-              'old is not value, old = components.get(name))'
-              % (norm_src(ifs[0].test) if ifs else 'missing'),
-              construct='value-filter', node=unreg)
+    from . import mutators, sem
+    mutators.value_filter(rep, 'R09.1', mod)
     sd = find_def(mod, 'BaseAdapterRegistry.subscribed')
-    rets = [n for n in walk_local(sd) if isinstance(n, ast.Return)]
-    ok = len(rets) == 1 and match(
-        'subscriber if subscriber in subscribers else None', rets[0].value) is not None
-    rep.check('R09.1', 'BaseAdapterRegistry.subscribed', ok,
-              'returns %s' % [norm_src(r.value) for r in rets],
-              construct='membership', node=sd)
+    probs = []
+    hit = 0
+    for ps in sem.normal(sem.summaries(sd)):
+        ret = sem.nt(ps.ret)
+        memb = [(c, t) for c, t, p in ps.order if c.startswith('subscriber in ')]
+        leafok = any("self._find_leaf(self._subscribers, required, provided, '')" in c
+                     for c, t in memb)
+        if ret == 'subscriber':
+            hit += 1
+            if not (memb and memb[-1][1] and leafok):
+                probs.append('returns the subscriber without the membership test')
+        elif ret == 'None':
+            if memb and memb[-1][1]:
+                probs.append('member but returns None')
+        else:
+            probs.append('returns `%s`' % ret[:60])
+    rep.check('R09.1', 'BaseAdapterRegistry.subscribed', not probs and hit >= 1,
+              'returns the subscriber iff it is a member (`in`) of the leaf found '
+              'by _find_leaf(self._subscribers, required, provided, \'\')'
+              if not probs else {'problems': sorted(set(probs))}, construct='membership',
+              node=sd)
 
     # ---- R09.2 --------------------------------------------------------------
-    for f, storage in ((reg, '_adapters'), (fl, None), (unreg, '_adapters'),
-                       (sub, '_subscribers'), (unsub, '_subscribers')):
-        ok, detail = shared.descent_ok(f, storage or '_adapters')
-        rep.check('R09.2', 'BaseAdapterRegistry.' + f.name, ok, detail,
-                  construct='descent', node=f)
-        ok, detail = shared.required_normalised(f)
-        rep.check('R09.2', 'BaseAdapterRegistry.' + f.name, ok, detail,
-                  construct='normalise', node=f)
+    for fn, storage in (('register', '_adapters'), ('unregister', '_adapters'),
+                        ('subscribe', '_subscribers'), ('unsubscribe', '_subscribers')):
+        mutators.descent(rep, 'R09.2', mod, fn, storage)
+    # _find_leaf: generic over the byorder argument
+    ss = sem.normal(sem.summaries(fl))
+    rets = set()
+    probs = []
+    for ps in ss:
+        r = mutators.norm_required(sem.nt(ps.ret))
+        rets.add(r)
+    want_full = 'byorder[len(R)].get(EACH(R + (provided,))).get(name)'
+    ok = want_full in rets and rets <= {want_full, 'None', 'byorder[len(R)].get(name)'}
+    rep.check('R09.2', 'BaseAdapterRegistry._find_leaf', ok,
+              'returns byorder[len(R)] descended along R + (provided,) then '
+              '.get(name), or None when a level is missing: %s' % sorted(rets),
+              construct='find-leaf', node=fl)
     # names
     nm = [n for n in walk_local(reg) if isinstance(n, ast.Assign)
           and match('name = $v', n, 'exec') is not None]
@@ -190,61 +202,60 @@ def run(rep):
     rep.check('R09.2', 'BaseAdapterRegistry.registered', ok,
               'returns %s' % [norm_src(r.value) for r in rets],
               construct='find', node=rd)
-    sl = resolve_local(sd, ast.Name(id='subscribers', ctx=ast.Load()))
-    ok = match("self._find_leaf(self._subscribers, required, provided, '') or ()",
-               sl) is not None
-    rep.check('R09.2', 'BaseAdapterRegistry.subscribed', ok,
-              'subscribers = %s' % norm_src(sl), construct='find', node=sd)
-    nm = resolve_local(sub, ast.Name(id='name', ctx=ast.Load()))
-    rep.check('R09.2', 'BaseAdapterRegistry.subscribe',
-              match("''", nm) is not None,
-              'subscribers are stored under the name %s' % norm_src(nm),
-              construct='name', node=sub)
-    # _find_leaf returns the leaf of the name or None on any missing level
-    rets = [n for n in walk_local(fl) if isinstance(n, ast.Return)]
-    vals = sorted(norm_src(r.value) for r in rets)
-    rep.check('R09.2', 'BaseAdapterRegistry._find_leaf',
-              vals == ['None', 'None', 'components.get(name)'],
-              'returns %s' % vals, construct='returns', node=fl)
 
     # ---- R09.3 --------------------------------------------------------------
-    prune_guard(rep, 'R09.3', unreg, 'BaseAdapterRegistry.unregister')
-    prune_guard(rep, 'R09.3', unsub, 'BaseAdapterRegistry.unsubscribe')
+    mutators.prune(rep, 'R09.3', mod, 'unregister')
+    mutators.prune(rep, 'R09.3', mod, 'unsubscribe')
 
     # ---- R09.4 --------------------------------------------------------------
-    rb = find_def(mod, 'BaseAdapterRegistry.rebuild')
+    rb = find_def(mod, 'BaseAdapterRegistry.rebuild', raw=True)
     cfg = cfg_of(rb)
     initn = nodes_with(cfg, 'self.__init__($$a)')
+
+    def starter(name):
+        """a helper (nested, module-level or method) that advances its
+        iterator argument with next() and chains the first item back"""
+        cands = [n for n in ast.walk(mod) if isinstance(n, ast.FunctionDef) and n.name == name]
+        for h in cands:
+            if not h.args.args:
+                continue
+            p = h.args.args[-1].arg if h.args.args[0].arg in ('self', 'cls') else h.args.args[0].arg
+            nx = find_all(h, 'next(%s)' % p)
+            rr = sorted(norm_src(r.value) for r in ast.walk(h) if isinstance(r, ast.Return))
+            first = [n.targets[0].id for n in ast.walk(h) if isinstance(n, ast.Assign)
+                     and isinstance(n.targets[0], ast.Name)
+                     and match('next(%s)' % p, n.value) is not None]
+            if nx and first and rr == sorted(['iter(())', 'itertools.chain((%s,), %s)'
+                                              % (first[0], p)]):
+                return True
+        return False
     ok = len(initn) == 1
     detail = 'self.__init__ calls: %d' % len(initn)
     if ok:
         init = initn[0]
-        # nested buffer helper
-        helpers = [n for n in rb.body if isinstance(n, ast.FunctionDef)]
-        buf = None
-        for h in helpers:
-            if find_all(h, 'next($it)'):
-                buf = h
-        okb = buf is not None
-        if okb:
-            hp = [a.arg for a in buf.args.args][0]
-            # returns chain((first,), it) or iter(()) on StopIteration
-            rr = [norm_src(r.value) for r in walk_local(buf)
-                  if isinstance(r, ast.Return)]
-            okb = sorted(rr) == sorted(['iter(())',
-                                        'itertools.chain((first,), %s)' % hp]) and \
-                bool(find_all(buf, 'first = next(%s)' % hp, 'exec'))
         started = {}
         for kind, src in (('registrations', 'self.allRegistrations()'),
                           ('subscriptions', 'self.allSubscriptions()')):
-            a = nodes_with(cfg, '%s = %s' % (kind, src), 'exec')
-            b = nodes_with(cfg, '%s = %s(%s)' % (kind, buf.name if buf else 'buffer', kind), 'exec')
-            started[kind] = bool(a) and bool(b) and \
-                all(cfg.dominated_by(init, lambda n, x=x: n is x) for x in a + b) and \
-                all(cfg.dominated_by(x, lambda n, y=a[0]: n is y) for x in b)
-        ok = okb and all(started.values())
-        detail = ('buffer helper starts the generator (%s); both iterators '
-                  'created and buffered before self.__init__: %s' % (okb, started))
+            good = False
+            for n in cfg.nodes:
+                if not isinstance(n.ast, ast.Assign) or not isinstance(n.ast.value, ast.Call):
+                    continue
+                c = n.ast.value
+                callee = c.func.id if isinstance(c.func, ast.Name) else (
+                    c.func.attr if isinstance(c.func, ast.Attribute) else None)
+                if callee and len(c.args) == 1 and starter(callee):
+                    from ..facts import resolve
+                    arg = resolve(cfg, n, c.args[0])
+                    if match(src, arg) is not None and cfg.dominated_by(init, lambda m, n=n: m is n):
+                        tgt = n.ast.targets[0].id if isinstance(n.ast.targets[0], ast.Name) else None
+                        started[kind] = tgt
+                        good = True
+            if not good:
+                started[kind] = None
+        ok = all(started.values())
+        detail = ('both iterators are created from the live storage and advanced '
+                  '(next() via a buffering helper) before self.__init__ replaces '
+                  'it: %s' % started)
     rep.check('R09.4', 'BaseAdapterRegistry.rebuild', ok, detail,
               construct='buffer-before-init', node=rb)
     if initn:
@@ -255,48 +266,64 @@ def run(rep):
                   construct='init-args', node=rb)
     okl = True
     dl = []
-    for kind, call in (('registrations', 'self.register(*VAR)'),
-                       ('subscriptions', 'self.subscribe(*VAR)')):
-        lps = [lp for lp in walk_local(rb) if isinstance(lp, ast.For)
-               and isinstance(lp.iter, ast.Name) and lp.iter.id == kind]
-        good = False
-        for lp in lps:
-            v = lp.target.id if isinstance(lp.target, ast.Name) else '_'
-            cs = find_all(lp, call.replace('VAR', v))
-            exits = [n for n in walk_local(lp) if isinstance(
-                n, (ast.Break, ast.Return, ast.Continue))]
-            after = initn and cfg.node_of(lp).id in cfg.reach(initn[0])
-            good = bool(cs) and not exits and bool(after) and \
-                isinstance(cs[0][0].parent, ast.Expr) and cs[0][0].parent.parent is lp
-        dl.append((kind, good))
-        okl = okl and good
+    if ok:
+        for kind, call in (('registrations', 'self.register(*VAR)'),
+                           ('subscriptions', 'self.subscribe(*VAR)')):
+            lps = [lp for lp in walk_local(rb) if isinstance(lp, ast.For)
+                   and isinstance(lp.iter, ast.Name) and lp.iter.id == started[kind]]
+            good = False
+            for lp in lps:
+                v = lp.target.id if isinstance(lp.target, ast.Name) else '_'
+                cs = find_all(lp, call.replace('VAR', v))
+                exits = [n for n in walk_local(lp) if isinstance(
+                    n, (ast.Break, ast.Return, ast.Continue))]
+                after = cfg.node_of(lp).id in cfg.reach(initn[0])
+                good = bool(cs) and not exits and bool(after)
+            dl.append((kind, good))
+            okl = okl and good
+    else:
+        okl = False
     rep.check('R09.4', 'BaseAdapterRegistry.rebuild', okl,
               'after re-initialisation every buffered entry is replayed: %s' % dl,
               construct='replay', node=rb)
 
     # ---- R09.5 --------------------------------------------------------------
+    from ..facts import guarded
     ak = find_def(mod, 'BaseAdapterRegistry._allKeys')
-    ps = shared.params(ak)
-    rep.require(len(ps) == 4, '_allKeys signature %s' % ps)
-    comp, i_n, pk = ps[1], ps[2], ps[3]
-    ifs = [n for n in ak.body if isinstance(n, ast.If)]
-    ok = len(ifs) == 1 and match('%s == 0' % i_n, ifs[0].test) is not None
-    if ok:
-        base, recur = ifs[0].body, ifs[0].orelse
-        okb = any(find_all(s, 'yield (%s + ($k,), $v)' % pk, 'exec') or
-                  find_all(s, 'yield %s + ($k,), $v' % pk, 'exec')
-                  for s in base)
-        okr = any(find_all(s, '%s._allKeys($v, %s - 1, $npk)' % (ps[0], i_n))
-                  for s in recur)
-        npk = [e for s in recur for c, e in find_all(
-            s, '%s._allKeys($v, %s - 1, $npk)' % (ps[0], i_n))]
-        oknpk = bool(npk) and match('%s + ($k,)' % pk, resolve_local(
-            ak, npk[0]['npk'])) is not None
-        ok = okb and okr and oknpk
-    rep.check('R09.5', 'BaseAdapterRegistry._allKeys', ok,
-              'depth i yields keys of length i + 1 (base case at i == 0, '
-              'recursion with i - 1 extending the parent key)', construct='depth',
-              node=ak)
+    ps_ = shared.params(ak)
+    rep.require(len(ps_) == 4, '_allKeys signature %s' % ps_)
+    comp, i_n, pk = ps_[1], ps_[2], ps_[3]
+    cfga = cfg_of(ak)
+    ys = [n for n in cfga.nodes if n.ast is not None and header_expr(n) is not None and
+          any(isinstance(x, ast.Yield) for x in ast.walk(header_expr(n)))]
+    yf = [n for n in cfga.nodes if n.ast is not None and header_expr(n) is not None and
+          any(isinstance(x, ast.YieldFrom) for x in ast.walk(header_expr(n)))]
+    okb = bool(ys) and all(guarded(cfga, n, '%s == 0' % i_n, True) for n in ys)
+    okr = bool(yf) and all(guarded(cfga, n, '%s == 0' % i_n, False) for n in yf)
+    okshape = False
+    for n in ys:
+        y = [x for x in ast.walk(header_expr(n)) if isinstance(x, ast.Yield)][0]
+        from ..facts import resolve
+        v = y.value
+        if isinstance(v, ast.Tuple) and len(v.elts) == 2:
+            kexpr = resolve(cfga, n, v.elts[0])
+            okshape = match('%s + ($k,)' % pk, kexpr) is not None
+    okrec = False
+    for n in yf:
+        y = [x for x in ast.walk(header_expr(n)) if isinstance(x, ast.YieldFrom)][0]
+        c = y.value
+        if isinstance(c, ast.Call) and len(c.args) == 3:
+            a1 = resolve(cfga, n, c.args[1])
+            a2 = resolve(cfga, n, c.args[2])
+            okrec = match('%s - 1' % i_n, a1) is not None and \
+                match('%s + ($k,)' % pk, a2) is not None
+    its = [lp for lp in walk_local(ak) if isinstance(lp, ast.For)
+           and match('%s.items()' % comp, lp.iter) is not None]
+    rep.check('R09.5', 'BaseAdapterRegistry._allKeys',
+              okb and okr and okshape and okrec and bool(its),
+              'at depth 0 yields (parent key + (k,), value); otherwise recurses '
+              'with depth - 1 and the extended key, over components.items() '
+              '(%s/%s/%s/%s)' % (okb, okr, okshape, okrec), construct='depth', node=ak)
     ae = find_def(mod, 'BaseAdapterRegistry._all_entries')
     lps = [lp for lp in walk_local(ae) if isinstance(lp, ast.For)
            and match('enumerate(byorder)', lp.iter) is not None]
@@ -307,14 +334,24 @@ def run(rep):
         iv = lp.target.elts[0].id
         cv = lp.target.elts[1].id
         okk = bool(find_all(lp, 'self._allKeys(%s, %s + 1)' % (cv, iv)))
-        oks = bool(find_all(lp, 'required = key[:%s]' % iv, 'exec')) and \
-            bool(find_all(lp, 'provided = key[-2]', 'exec')) and \
-            bool(find_all(lp, 'name = key[-1]', 'exec'))
-        oky = bool(find_all(lp, 'yield (required, provided, name, value)', 'exec'))
-        ok = okk and oks and oky
-        detail = ('order i: _allKeys(components, i + 1) (keys of length i + 2); '
-                  'required = key[:i], provided = key[-2], name = key[-1] '
-                  '(keys %s, slices %s, yield %s)' % (okk, oks, oky))
+        cfge = cfg_of(ae)
+        yn = [n for n in cfge.nodes if n.ast is not None and header_expr(n) is not None and
+              any(isinstance(x, ast.Yield) for x in ast.walk(header_expr(n)))]
+        oks = False
+        got = None
+        if len(yn) == 1:
+            y = [x for x in ast.walk(header_expr(yn[0])) if isinstance(x, ast.Yield)][0]
+            if isinstance(y.value, ast.Tuple) and len(y.value.elts) == 4:
+                got = [norm_src(resolve(cfge, yn[0], e)) for e in y.value.elts]
+                kv = got[0].split('[')[0]
+                want_req = '%s[:%s]' % (kv, iv)
+                prov_ok = got[1] in ('%s[-2]' % kv, '%s[%s]' % (kv, iv))
+                name_ok = got[2] in ('%s[-1]' % kv, '%s[%s + 1]' % (kv, iv))
+                oks = got[0] == want_req and prov_ok and name_ok
+        ok = okk and oks
+        detail = ('order i: keys from _allKeys(components, i + 1) have length i + 2; '
+                  'yields (key[:i], key[i] (= key[-2]), key[i + 1] (= key[-1]), value): '
+                  '%s (%s/%s)' % (got, okk, oks))
     rep.check('R09.5', 'BaseAdapterRegistry._all_entries', ok, detail,
               construct='slices', node=ae)
     ar = find_def(mod, 'BaseAdapterRegistry.allRegistrations')
@@ -338,22 +375,15 @@ def run(rep):
     rep.check('R09.5', 'BaseAdapterRegistry.allSubscriptions', ok,
               'yields (required, provided, v) for every v of every leaf of '
               'self._subscribers, in stored order', construct='source', node=asub)
-    # writers nest order + 1 levels: descent over required + (provided,) where
-    # order = len(required)  (R09.2) -- recorded as one obligation here
-    rep.check('R09.5', 'BaseAdapterRegistry.register',
-              shared.descent_ok(reg, '_adapters')[0],
-              'writer descends len(required) + 1 levels before the name level',
-              construct='writer-depth', node=reg)
 
     # ---- R09.6 --------------------------------------------------------------
-    st = find_all(reg, 'components[name] = value', 'exec')
+    st = find_all(reg, '$c[name] = value', 'exec')
     rep.check('R09.6', 'BaseAdapterRegistry.register', len(st) == 1,
               'stores components[name] = value (%d)' % len(st),
               construct='leaf-store', node=reg)
-    from .C07 import extendor_transitions
-    extendor_transitions(rep, 'R09.6', mod, 'register', 'add')
-    extendor_transitions(rep, 'R09.6', mod, 'unregister', 'remove')
-    dl = find_all(unreg, 'del components[name]', 'exec')
+    mutators.extendor_transitions(rep, 'R09.6', mod, 'register', 'add')
+    mutators.extendor_transitions(rep, 'R09.6', mod, 'unregister', 'remove')
+    dl = find_all(unreg, 'del $c[name]', 'exec')
     rep.check('R09.6', 'BaseAdapterRegistry.unregister', len(dl) == 1,
               'deletes exactly components[name] (%d)' % len(dl),
               construct='leaf-delete', node=unreg)
